@@ -350,6 +350,8 @@ package mobius
 //@ func HandleSetFileInfo(cc *hotline.ClientConn, t *hotline.Transaction) (res []hotline.Transaction)
 //@   property C11
 //@   before call (*hotline.fileWrapper).Move assert hlFile.Name == pbase(callres("hotline.ReadPath#2", 0)) && arg1 == callres("hotline.ReadPath#3", 0)
+//@   before call (*hotline.FlatFileInformationFork).SetComment assert !isnil(reqdata(0, 210)) && same(arg1, reqdata(0, 210))
+//@   ensures !isnil(reqdata(0, 210)) && called("(*hotline.ClientConn).NewReply") ==> called("(*hotline.FlatFileInformationFork).SetComment") && called("(*hotline.fileWrapper).InfoForkWriter") && called("io.Copy")
 
 // ---------------------------------------------------------------------------------
 // C09: the upload reply.  An upload is refused when the final name exists; for a resume request
@@ -392,3 +394,60 @@ package mobius
 //@   ensures !has_old(cats, name) ==> has(cats, name) && get(cats, name).Name == name && get(cats, name).Type == t
 //@   before call (*mobius.ThreadedNewsYAML).writeFile assert !has_old(cats, name) && locked(n, "mu")
 //@   before call (*mobius.ThreadedNewsYAML).getCatByPath assert locked(n, "mu") && same(arg1, newsPath)
+
+// ---------------------------------------------------------------------------------
+// C03: goroutines a handler starts run outside the connection's recover wrapper, so a panic in
+// them ends the whole process.  The delayed-disconnect goroutines dereference the client they are
+// given: it must be non-nil where they are started.  (In HandleDisconnectUser this follows from
+// the preceding Authorize call on the looked-up client, which panics -- inside the handler's
+// recover -- for a client ID that is not connected.)
+
+//@ func HandleDisconnectUser(cc *hotline.ClientConn, t *hotline.Transaction) (res []hotline.Transaction)
+//@   property C03
+//@   before call mobius.HandleDisconnectUser$1 assert clientConn != nil
+
+//@ func HandleUpdateUser(cc *hotline.ClientConn, t *hotline.Transaction) (res []hotline.Transaction)
+//@   property C03
+//@   before call mobius.HandleUpdateUser$1 assert arg0 != nil
+
+//@ func HandleDeleteUser(cc *hotline.ClientConn, t *hotline.Transaction) (res []hotline.Transaction)
+//@   property C03
+//@   before call mobius.HandleDeleteUser$1 assert arg0 != nil
+
+// ---------------------------------------------------------------------------------
+// C15 / C16: loading the account files.  Every file the directory scan returns ends up in the table
+// (an iteration either fails the whole load or stores its account), and the loader -- including the
+// migration of the legacy privilege format -- never sets a privilege bit itself.
+
+//@ func NewYAMLAccountManager(accountDir string) (r *YAMLAccountManager, err error)
+//@   property C15 C16
+//@   before any call (*hotline.AccessBitmap).Set assert false
+//@   before call gopkg.in/yaml.v3.Unmarshal assert same(arg0, callres("os.ReadFile", 0))
+//@   before call os.ReadFile assert arg0 == filePath
+//@   loop 1 reaches mapupdate
+
+// ---------------------------------------------------------------------------------
+// C19: what is served is the file's text with line breaks swapped and nothing else touched: the
+// stored bytes are the result of two strings.ReplaceAll calls (LF, then CRLF, to the configured
+// line ending) applied to the bytes read from the store's own file.  ReplaceAll works on bytes: a
+// text that is not valid UTF-8 (Mac-Roman accents) passes through unchanged.
+
+//@ func (f *FlatNews) Reload() (err error)
+//@   property C19
+//@   before call os.ReadFile assert arg0 == f.filePath && locked(f, "mu")
+//@   before call strings.ReplaceAll#1 assert arg1 == "\n" && arg2 == "\r"
+//@   before call strings.ReplaceAll#2 assert arg0 == callres("strings.ReplaceAll#1") && arg1 == "\r\n" && arg2 == "\r"
+//@   ensures err == nil ==> bytes(f.data) == bytes(callres("strings.ReplaceAll#2"))
+
+//@ func (a *Agreement) Reload() (err error)
+//@   property C19
+//@   before call os.ReadFile assert arg0 == a.filePath && locked(a, "mu")
+//@   before call strings.ReplaceAll#1 assert arg1 == "\n" && arg2 == a.lineEndings
+//@   before call strings.ReplaceAll#2 assert arg0 == callres("strings.ReplaceAll#1") && arg1 == "\r\n" && arg2 == a.lineEndings
+//@   ensures err == nil ==> bytes(a.data) == bytes(callres("strings.ReplaceAll#2"))
+
+//@ func NewAgreement(path string, lineEndings string) (r *Agreement, err error)
+//@   property C19
+//@   before call strings.ReplaceAll#1 assert arg1 == "\n" && arg2 == lineEndings
+//@   before call strings.ReplaceAll#2 assert arg0 == callres("strings.ReplaceAll#1") && arg1 == "\r\n" && arg2 == lineEndings
+//@   ensures err == nil ==> bytes(r.data) == bytes(callres("strings.ReplaceAll#2")) && r.lineEndings == lineEndings
